@@ -519,6 +519,8 @@ func windowLag(seq []int, w []uint32) (ok bool, i, j, s, e int, lag int64) {
 	return true, 0, 0, 0, 0, 0
 }
 
+var wrrManagerOnce sync.Once
+
 func TestPropWRR(t *testing.T) {
 	ev.Check(t, func(rt *rapid.T) {
 		lb.Housekeep(256)
@@ -557,7 +559,54 @@ func TestPropWRR(t *testing.T) {
 		var balancer types.LoadBalancer
 		var hosts []types.Host
 		index := map[types.Host]int{}
-		if viaCluster {
+		// a third of the cases: the host set comes about the way service discovery delivers it - through the cluster
+		// manager, some hosts first with ANOTHER weight and then appended again (re-registered) with the weight that
+		// counts, some appended as new hosts; the last delivery wins
+		if rapid.IntRange(0, 2).Draw(rt, "viaManagerAppend") == 0 {
+			wrrManagerOnce.Do(func() { cluster.NewClusterManagerSingleton(nil, nil, nil) })
+			ca := cluster.GetClusterMngAdapterInstance()
+			addrs := make([]string, len(w))
+			var first, app []v2.Host
+			for i, x := range w {
+				addrs[i] = lb.NextAddr()
+				switch rapid.IntRange(0, 2).Draw(rt, "delivery") {
+				case 0: // there from the start with its weight
+					first = append(first, v2.Host{HostConfig: v2.HostConfig{Address: addrs[i], Weight: x}})
+				case 1: // there from the start with another weight, then re-registered
+					first = append(first, v2.Host{HostConfig: v2.HostConfig{Address: addrs[i], Weight: x%128 + 1}})
+					app = append(app, v2.Host{HostConfig: v2.HostConfig{Address: addrs[i], Weight: x}})
+				default: // appended as a new host
+					app = append(app, v2.Host{HostConfig: v2.HostConfig{Address: addrs[i], Weight: x}})
+				}
+			}
+			if err := ca.TriggerClusterAndHostsAddOrUpdate(cfg, first); err != nil {
+				rt.Fatalf("VERIF-INFRA add cluster: %v", err)
+			}
+			defer func() { _ = ca.TriggerClusterDel(cfg.Name) }()
+			if len(app) > 0 {
+				if err := ca.TriggerHostAppend(cfg.Name, app); err != nil {
+					rt.Fatalf("VERIF-INFRA append hosts: %v", err)
+				}
+			}
+			ev.Class(partWRR, "hosts-delivered-through-the-cluster-manager:append")
+			snap := ca.GetClusterSnapshot(nil, cfg.Name)
+			byAddr := map[string]int{}
+			for i, a := range addrs {
+				byAddr[a] = i
+			}
+			n := 0
+			snap.HostSet().Range(func(h types.Host) bool {
+				if i, ok := byAddr[h.AddressString()]; ok {
+					index[h] = i
+					n++
+				}
+				return true
+			})
+			if n != len(w) || snap.HostSet().Size() != len(w) {
+				ev.Fail(rt, partWRR, "wrr/host-set-after-append-is-not-the-delivered-one", "weights %v: %d hosts delivered (initial %d, appended %d), the snapshot has %d", w, len(w), len(first), len(app), snap.HostSet().Size())
+			}
+			balancer = snap.LoadBalancer()
+		} else if viaCluster {
 			c := cluster.NewCluster(cfg)
 			info := c.Snapshot().ClusterInfo()
 			for i, x := range w {
